@@ -2,9 +2,9 @@ import io
 from . import ref
 
 
-def replay_roundtrip(lengths, blocked, api):
+def replay_roundtrip(lengths, blocked, api, records=None):
     from cardutil import mciipm
-    recs = [ref.content(n, i) for i, n in enumerate(lengths)]
+    recs = records or [ref.content(n, i) for i, n in enumerate(lengths)]
     if api == 'class':
         f = io.BytesIO()
         w = mciipm.VbsWriter(f, blocked=blocked)
